@@ -161,10 +161,11 @@ func leafTerms() []kv.Term {
 	for i := range kv.FNs {
 		ts = append(ts, kv.Term{Op: "fn", N: i})
 	}
+	ts = append(ts, kv.Term{Op: "fn", N: 11}, kv.Term{Op: "fn", N: 12}) // one literal, two captured values
 	for _, names := range [][]string{{}, {"n1"}, {"n1", "n2"}, {"n2", "n1"}, {""}, {"n1", "n1"}} {
 		ts = append(ts, kv.Term{Op: "node", Strs: names})
 	}
-	for _, inv := range [][]string{{"Pod", "a", "x"}, {"Pod", "b", "x"}, {"Service", "a", "x"}, {"Pod", "a", "y"}} {
+	for _, inv := range [][]string{{"Pod", "a", "x"}, {"Pod", "b", "x"}, {"Service", "a", "x"}, {"Pod", "a", "y"}, {"", "a", "x"}} {
 		ts = append(ts, kv.Term{Op: "involved", Strs: inv})
 	}
 	for _, m := range []map[string]string{nil, {}, {"l": "1"}, {"l": "1", "t": "q"}, {"t": "2", "l": "1"}} {
@@ -335,7 +336,17 @@ func filterdiff(w *bufio.Writer, seed uint64, tier string, stats map[string]int)
 		}
 	}
 	// composites with repeated / swapped / replaced children (order matters, multiplicity matters)
-	small := []kv.Term{leaves[0], leaves[1], leaves[3], leaves[4], leaves[14], leaves[20], leaves[22], leaves[len(leaves)-1]}
+	small := []kv.Term{leaves[0], leaves[1], leaves[3], leaves[4], leaves[14], leaves[20], leaves[22], leaves[len(leaves)-1],
+		{Op: "fn", N: 11}, {Op: "fn", N: 12}, {Op: "fn", N: 0}}
+	// opaque predicates: alone, and as the only child (one literal with two captured values must not be "equal")
+	for _, x := range small[len(small)-3:] {
+		for _, y := range small[len(small)-3:] {
+			for _, op := range []string{"and", "or", "not"} {
+				emitEq("eq", kv.Term{Op: op, Kids: []kv.Term{x}}, kv.Term{Op: op, Kids: []kv.Term{y}})
+				emitEq("eq", kv.Term{Op: "not", Kids: []kv.Term{{Op: op, Kids: []kv.Term{x}}}}, kv.Term{Op: "not", Kids: []kv.Term{{Op: op, Kids: []kv.Term{y}}}})
+			}
+		}
+	}
 	for _, op := range []string{"and", "or"} {
 		for _, x := range small {
 			for _, y := range small {
